@@ -268,6 +268,16 @@ async fn run_script(script: Script) -> Vec<Ev> {
 							wxc.config.throttle(Duration::from_millis(e.arg));
 							rec.rec(Ev::new("throttle").x(e.arg as i64));
 						}
+						"reconfig" => {
+							// C13: reconfiguring from inside a handler must neither deadlock nor disturb
+							// the invocation in progress
+							wxc.config.pathset(Vec::<watchexec::WatchedPath>::new());
+							wxc.config.file_watcher(watchexec::sources::fs::Watcher::Native);
+							wxc.config.keyboard_events(false);
+							wxc.config.throttle(Duration::from_millis(e.arg));
+							wxc.config.on_error(|_| {});
+							rec.rec(Ev::new("throttle").x(e.arg as i64));
+						}
 						"quit" => {
 							rec.rec(Ev::new("ask_quit").x(0));
 							action.quit();
